@@ -169,8 +169,10 @@ type c09Env struct {
 	udp            *farm.Endpoint
 	tcp            *farm.Endpoint
 	tcp2           *farm.Endpoint // a second TCP controller (two TCP calls in a row from one fixed bind port need two different peers)
-	closed         int            // a port nobody listens on
-	plan           sync.Map       // serial -> behaviour name
+	pairU          *farm.Endpoint // a UDP and a TCP endpoint on one port number: a controller configured with protocol "any" / "" / "xyz" is a UDP controller
+	pairT          *farm.Endpoint
+	closed         int      // a port nobody listens on
+	plan           sync.Map // serial -> behaviour name
 	floodS         time.Duration
 	timing         sync.Map                                         // serial -> *c09Timing (measured by the farm)
 	cfgHook        func(b behaviour, serial uint32, cfg *ClientCfg) // netns mode: network specific configuration
@@ -230,6 +232,14 @@ func newC09Env(c *Ctx, T time.Duration) *c09Env {
 	if e.tcp2, err = e.fm.AddTCP("127.0.0.1", 0); err != nil {
 		return nil
 	}
+	for try := 0; try < 20 && e.pairT == nil; try++ {
+		if e.pairU, err = e.fm.AddUDP("127.0.0.1", 0); err != nil {
+			return nil
+		}
+		if e.pairT, err = e.fm.AddTCP("127.0.0.1", e.pairU.Port); err != nil {
+			e.pairT = nil
+		}
+	}
 	e.closed = freePort("127.0.0.1")
 	e.fm.SetScript(e.script)
 	return e
@@ -278,6 +288,9 @@ func (e *c09Env) script(ep *farm.Endpoint, src net.Addr, req []byte, seq uint64)
 	}
 	switch v.(string) {
 	case "silence":
+		if ep.Proto == "tcp" {
+			return []farm.Action{{Stall: true}} // (a TCP peer that accepts and never answers)
+		}
 		return nil
 	case "prompt":
 		return []farm.Action{{Data: reply}}
@@ -348,6 +361,8 @@ func (e *c09Env) run(b behaviour, serial uint32, bind string) c09Result {
 		cfg.Devices = []DevCfg{{ID: serial, Addr: "203.0.113.7:60000", Proto: "udp"}}
 	case b.name == "unreachable":
 		cfg.Broadcast = "203.0.113.255:60000"
+	case strings.HasSuffix(b.name, "-any") && e.pairU != nil:
+		cfg.Devices = []DevCfg{{ID: serial, Addr: e.pairU.Addr, Proto: []string{"any", "", "xyz", "UDP"}[int(serial)%4], NewDevice: serial%2 == 0}}
 	case b.path == "udp":
 		cfg.Devices = []DevCfg{{ID: serial, Addr: e.udp.Addr, Proto: "udp"}}
 	case b.name == "prompt-tcp2" && e.tcp2 != nil:
@@ -363,6 +378,7 @@ func (e *c09Env) run(b behaviour, serial uint32, bind string) c09Result {
 	if name == "set-address" || name == "discovery" || name == "prompt-tcp2" {
 		name = "prompt"
 	}
+	name = strings.TrimSuffix(name, "-any")
 	e.plan.Store(serial, name)
 	defer e.plan.Delete(serial)
 	res := c09Result{b: b, serial: serial}
@@ -487,7 +503,7 @@ func c09(c *Ctx) {
 		c09Netns(c)
 		return
 	}
-	T := 200 * time.Millisecond
+	T := 230 * time.Millisecond // (not a round number: nothing may depend on the timeout being a multiple of anything)
 	e := newC09Env(c, T)
 	if e == nil {
 		c.Res.Inconcl("cannot build farm")
@@ -558,6 +574,68 @@ func c09(c *Ctx) {
 					map[string]any{"behaviour": b.name, "path": b.path, "goroutine": truncateStr(gd, 1500)}, caseNo)
 			}
 			c.Res.Count("per-call-resource-checks", 1)
+		}
+	}
+
+	// ---- phase 1a: a controller configured with a protocol that is not "tcp" ("any", "", "xyz") is a UDP controller: one request, one
+	// timeout - with T = 1 s, so that a second attempt over another transport cannot hide in the slack
+	if !only2 && !onlyFlood {
+		e2 := newC09Env(c, time.Second)
+		if e2 != nil {
+			e2.slack = 500 * time.Millisecond
+			var wg sync.WaitGroup
+			// serial%4 selects the protocol string ("any", "", "xyz", "UDP"), serial%2 the constructor (NewDevice / struct literal)
+			kinds := []behaviour{{"silence-any", "udp", "error", 0.93, true}, {"silence-any", "udp", "error", 0.93, true}, {"silence-any", "udp", "error", 0.93, true}, {"silence-any", "udp", "error", 0.93, true},
+				{"prompt-any", "udp", "success", 0, false}, {"prompt-any", "udp", "success", 0, false}}
+			results := make([]c09Result, len(kinds))
+			base4 := (next() &^ 7) + 8
+			for i, b := range kinds {
+				wg.Add(1)
+				go func(i int, b behaviour, s uint32) {
+					defer wg.Done()
+					results[i] = e2.run(b, s, workerIP(c, i)+":0")
+				}(i, b, base4+uint32(i))
+			}
+			wg.Wait()
+			serial = base4 + 16
+			for i := range results {
+				caseNo++
+				e2.judge(results[i], caseNo, "other-protocol-strings", 0)
+			}
+			e2.fm.Close()
+		}
+	}
+
+	// ---- phase 1a': a Listen that cannot bind its address fails - and leaves nothing behind
+	if !only2 && !onlyFlood {
+		for k := 0; k < c.N(3, 12); k++ {
+			port := freePort("127.0.0.3")
+			squat, serr := net.ListenUDP("udp4", &net.UDPAddr{IP: net.ParseIP("127.0.0.3"), Port: port})
+			if port == 0 || serr != nil {
+				continue
+			}
+			u := mkClient(ClientCfg{Bind: bindIP + ":0", Listen: fmt.Sprintf("127.0.0.3:%d", port), Timeout: time.Second})
+			q := make(chan os.Signal, 1)
+			done := make(chan error, 1)
+			go func() { done <- u.Listen(&c08Listener{}, q) }()
+			caseNo++
+			c.Res.Eval(1)
+			c.Res.Count("listen:address-in-use", 1)
+			select {
+			case err := <-done:
+				if err == nil {
+					c.Res.Violate("C09:listen:bind-failure:no-error", "Listen returned nil although its listen address was in use", nil, caseNo)
+				}
+			case <-time.After(3 * time.Second):
+				c.Res.Violate("C09:listen:bind-failure:hang", "Listen did not return although its listen address was in use", nil, caseNo)
+				q <- os.Interrupt
+			}
+			squat.Close()
+			s, g, sd, gd := settle(time.Second, 0, 0, bindHex, listenHex)
+			if s > 0 || g > 0 {
+				c.Res.Violate("C09:listen:bind-failure:leak", fmt.Sprintf("after a Listen that failed to bind, %d library sockets and %d library goroutines remain", s, g), map[string]any{"sockets": sd, "goroutine": truncateStr(gd, 1500)}, caseNo)
+				break
+			}
 		}
 	}
 
